@@ -83,3 +83,36 @@ func Fail(t *rapid.T, run *evid.Run, c any, err error) {
 
 // ReplayPath returns the replay file to run (VERIF_REPLAY) or "".
 func ReplayPath() string { return os.Getenv("VERIF_REPLAY") }
+
+// NShards returns the number of shard processes of this run (VERIF_NSHARDS, default 1).
+func NShards() int {
+	n := 1
+	fmt.Sscanf(os.Getenv("VERIF_NSHARDS"), "%d", &n)
+	if n < 1 {
+		n = 1
+	}
+	return n
+}
+
+// Det returns n deterministic pseudo-random bytes for a seed (xorshift; no RNG state shared between cases).
+func Det(seed uint64, n int) []byte {
+	b := make([]byte, n)
+	x := seed*0x9e3779b97f4a7c15 | 1
+	for i := range b {
+		x ^= x << 13
+		x ^= x >> 7
+		x ^= x << 17
+		b[i] = byte(x >> 32)
+	}
+	return b
+}
+
+func DetU64(seed uint64) uint64 {
+	x := seed*0x9e3779b97f4a7c15 | 1
+	for i := 0; i < 4; i++ {
+		x ^= x << 13
+		x ^= x >> 7
+		x ^= x << 17
+	}
+	return x
+}
